@@ -1,4 +1,5 @@
 import BoxoModel.C37.Lemmas
+import BoxoModel.C37.SWLemmas
 /-!
 # C37 — Bitswap exchange delivers requested blocks exactly once and cleans up (the getter / notification core)
 
@@ -95,6 +96,36 @@ theorem c37_want_before_subscribe_loses_block (keys : List Cid) (c : Cid) (evs :
   have : 0 < (after keys evs).delivered.count c := List.count_pos_iff.mpr hc
   simp only [inFlight, after] at h this
   omega
+
+/-! ## The session's want bookkeeping (sessionWants): cancelled CIDs are never broadcast again -/
+
+/-- **CancelPending clears.** After `CancelPending(ks)` no `k ∈ ks` is wanted by the session any more (neither a
+live want nor in the fetch queue), whatever the state was. -/
+theorem c37_cancel_pending_clears (s : SW.St) (ks : List Cid) (k : Cid) (hk : k ∈ ks) :
+    SW.isWanted (SW.cancelPending s ks) k = false :=
+  (SW.nw_iff _ k).mp (SW.cancel_nw ks k hk s)
+
+/-- **No re-broadcast after cancel.** From any state, after `CancelPending(ks)`, for EVERY later script of session
+calls (idle-tick `PrepareBroadcast`, periodic-search `RandomLiveWant` with any random draw, `GetNextWants`,
+`WantsSent`, `BlocksReceived`, `LiveWants`, further cancels, requests for other CIDs) that does not request
+`k ∈ ks` again: no call returns `k` — the session never puts a cancelled CID back on the wire — and `k` is still
+unwanted at the end. (The seeded change C37-A, CancelPending without `delete(liveWants, k)`, falsifies exactly this.) -/
+theorem c37_no_rebroadcast_after_cancel (s : SW.St) (ks : List Cid) (k : Cid) (hk : k ∈ ks) (ops : List SW.Op)
+    (hops : ∀ op ∈ ops, SW.requests k op = false) :
+    (∀ out ∈ (SW.run (SW.cancelPending s ks) ops).2, k ∉ out) ∧
+    SW.isWanted (SW.run (SW.cancelPending s ks) ops).1 k = false := by
+  obtain ⟨a, b⟩ := SW.run_nw ops k hops _ (SW.cancel_nw ks k hk s)
+  exact ⟨b, (SW.nw_iff _ k).mp a⟩
+
+/-- The same for any CID the session does not want (e.g. one whose block was received): it is returned by no call
+until it is requested again. -/
+theorem c37_unwanted_never_broadcast (s : SW.St) (k : Cid) (h : SW.isWanted s k = false) (ops : List SW.Op)
+    (hops : ∀ op ∈ ops, SW.requests k op = false) : ∀ out ∈ (SW.run s ops).2, k ∉ out :=
+  (SW.run_nw ops k hops s ((SW.nw_iff s k).mpr h)).2
+
+/-- non-vacuity: request 1 2 3 with limit 2, two become live, cancel 1; the idle tick broadcasts only 2 -/
+example : (SW.run { limit := 2 } [.req [1, 2, 3], .next, .cancel [1], .bcast, .next, .bcast]).2 =
+    [[], [1, 2], [], [2], [3], [2, 3]] := by decide
 
 /-! Non-vacuity: a request with a duplicate key; every block published twice, one unrequested publish -/
 def exSched : List Ev :=
